@@ -177,6 +177,81 @@ theorem mid_missing (b : Book α) (h : b.bid = none ∨ b.ask = none) : b.mid = 
   rcases h with h | h <;> simp only [Book.mid, h] <;> split <;> simp_all
 end
 
+/-- the events up to (not including) the first discontinuation of `k` -/
+def untilDisc (k : Key) : List (MEvent α) → List (MEvent α)
+  | [] => []
+  | .disc k' t :: es => if k' = k then [] else .disc k' t :: untilDisc k es
+  | .quote k' t b a :: es => .quote k' t b a :: untilDisc k es
+
+/-- **History under every interleaving**, discontinuations included: the history of a live book after any event
+    list is its old history followed by exactly the quotes for `k` that arrived before the first discontinuation of
+    `k`, in arrival order (`last_quote_wins` and `discontinued_forever` in one statement, no side condition on the
+    event list). -/
+theorem history_any_interleaving (evs : List (MEvent α)) (ex : Exchange α) (k : Key)
+    (hal : (ex.books k).alive = true) :
+    ((ex.run evs).books k).hist = (ex.books k).hist ++ quotesFor k (untilDisc k evs) := by
+  induction evs generalizing ex with
+  | nil => simp [Exchange.run, untilDisc, quotesFor]
+  | cons e es ih =>
+      cases e with
+      | disc k' t =>
+          by_cases hk : k' = k
+          · subst hk
+            obtain ⟨h1, h2, h3, h4⟩ := disc_kills ex k' t
+            have := (dead_stays_dead es (ex.step (.disc k' t)) k' h1 h2 h3).2.2.2
+            simp only [Exchange.run, List.foldl_cons] at this ⊢
+            rw [this, h4]; simp [untilDisc, quotesFor]
+          · have hb : ((ex.step (.disc k' t)).books k) = ex.books k :=
+              book_frame ex (.disc k' t) k (by simpa [MEvent.key] using hk)
+            have := ih (ex.step (.disc k' t)) (by rw [hb]; exact hal)
+            simpa [Exchange.run, untilDisc, quotesFor, hk, hb] using this
+      | quote k' t b a =>
+          by_cases hk : k' = k
+          · subst hk
+            have hb : ((ex.step (.quote k' t b a)).books k') = (ex.books k').update t b a := by
+              simp [Exchange.step, hal]
+            have hal' : ((ex.step (.quote k' t b a)).books k').alive = true := by
+              rw [hb]; simpa [Book.update] using hal
+            have := ih (ex.step (.quote k' t b a)) hal'
+            simp only [Exchange.run, List.foldl_cons] at this ⊢
+            rw [this, hb]; simp [Book.update, untilDisc, quotesFor]
+          · have hb : ((ex.step (.quote k' t b a)).books k) = ex.books k :=
+              book_frame ex (.quote k' t b a) k (by simpa [MEvent.key] using hk)
+            have := ih (ex.step (.quote k' t b a)) (by rw [hb]; exact hal)
+            simpa [Exchange.run, untilDisc, quotesFor, hk, hb] using this
+
+/-- from a fresh exchange: the history *is* the accepted quotes -/
+theorem history_from_fresh (evs : List (MEvent α)) (k : Key) :
+    ((({} : Exchange α).run evs).books k).hist = quotesFor k (untilDisc k evs) := by
+  have := history_any_interleaving evs ({} : Exchange α) k rfl
+  simpa using this
+
+/-- time of the last quote event of any contract -/
+def lastQuoteTime : List (MEvent α) → Option Time → Option Time
+  | [], acc => acc
+  | .quote _ t _ _ :: es, _ => lastQuoteTime es (some t)
+  | .disc _ _ :: es, acc => lastQuoteTime es acc
+
+/-- `Exchange.last_update` is the time of the most recently processed quote (of any contract, accepted or not);
+    discontinuations do not move it -/
+theorem last_update_spec (evs : List (MEvent α)) (ex : Exchange α) :
+    (ex.run evs).lastUpdate = lastQuoteTime evs ex.lastUpdate := by
+  induction evs generalizing ex with
+  | nil => rfl
+  | cons e es ih =>
+      cases e with
+      | quote k t b a =>
+          have := ih (ex.step (.quote k t b a))
+          simpa [Exchange.run, lastQuoteTime, Exchange.step] using this
+      | disc k t =>
+          have := ih (ex.step (.disc k t))
+          simpa [Exchange.run, lastQuoteTime, Exchange.step] using this
+
+example :
+    ((({} : Exchange Int).run
+      [.quote "A" 1 (some 9) (some 11), .quote "B" 2 (some 5) (some 6), .disc "A" 4, .quote "A" 5 (some 1) (some 2)]).books "A").hist.map (·.time)
+      = [1] := by decide
+
 /-! Non-vacuity: a concrete interleaving (quotes for two keys, a discontinuation, a late quote). -/
 example :
     let ex := (({} : Exchange Int).run
